@@ -8,6 +8,8 @@ Protocol (one observation per line; identical lines go to the Lean driver Operon
       agent exceptions: exc = RuntimeError("stub agent failure"); excK = KeyError() (no arguments); excR = an Exception
       whose __repr__ raises (str() works); excS = an Exception whose __str__ raises ("unprintable": run() raises the
       rendering error, ValueError); excB = a BaseException that is not an Exception (run() does not catch it: AgentAbort)
+      u:<VERDICT> = the agent answers VERDICT with a payload whose __str__ raises (ActionProtein.payload is `Any`): when the
+      gate renders that payload (approval reason, block reason) _apply_gate_logic raises ValueError outside run()'s handler
   adv <us> | resetcb | clearcache                                       -> - ; <stats>
   set gate|cache|ttl|breaker|thr|tmo <value> | set agents 0             -> - ; <stats>
       a public attribute of the LIVE loop is re-assigned (gate_logic, enable_cache, cache_ttl, enable_circuit_breaker,
@@ -74,7 +76,21 @@ def prompt_text(tok: str) -> str:
 
 
 def verdict_text(tok: str) -> str:
+    if tok.startswith("u:"):
+        tok = tok[2:]
     return unhexs(tok[2:]) if tok.startswith("x:") else tok
+
+
+def vd(v):
+    """the verdict of a recorded agent answer (`u:` marks an answer whose payload cannot be rendered)"""
+    return v[2:] if isinstance(v, str) and v.startswith("u:") else v
+
+
+class UnprintablePayload:
+    """a payload that cannot be rendered as text"""
+
+    def __str__(self):
+        raise ValueError("cannot render payload")
 
 
 class HookError(RuntimeError):
@@ -129,9 +145,16 @@ class _Exc:
 EXC = _Exc()
 
 
+class _Unp:
+    def __init__(self, verdict):
+        self.verdict = verdict
+
+
 def scripted(v):
     """protocol token of an agent's behaviour -> what the stub is told to do"""
-    return _Exc(v) if v in EXC_TOKENS else verdict_text(v)
+    if v in EXC_TOKENS:
+        return _Exc(v)
+    return _Unp(verdict_text(v)) if v.startswith("u:") else verdict_text(v)
 
 
 _SOURCES = [None, "", "Gene_Y (stub assessor)", "Gene_Z (stub executor)", "Mallory", "Gene_Y (Risk)", "system"]
@@ -156,6 +179,9 @@ class Stub:
         if isinstance(self.next, _Exc):
             raise make_exception(self.next.tok)
         k = self.k
+        if isinstance(self.next, _Unp):
+            return self.types.ActionProtein(self.next.verdict, UnprintablePayload(), _CONFS[k % len(_CONFS)],
+                                            source_agent=_SOURCES[k % len(_SOURCES)], metadata={"note": "adversarial", "k": k})
         return self.types.ActionProtein(self.next, _PAYLOADS[k % len(_PAYLOADS)], _CONFS[k % len(_CONFS)],
                                         source_agent=_SOURCES[(k * 3 + len(str(self.next))) % len(_SOURCES)],
                                         metadata={"note": "adversarial", "k": k})
@@ -185,8 +211,12 @@ class Recorder:
                 done(self.last)
             raise
         self.last = out.action_type
+        try:
+            str(out.payload)
+        except BaseException:  # noqa  (the payload cannot be rendered)
+            self.last = "u:" + str(out.action_type)
         if done is not None:
-            done(out.action_type)
+            done(self.last)
         return out
 
 
@@ -214,26 +244,38 @@ class Impl:
         def hook(result):
             self.hook_calls[which] += 1
             if self.frames:
-                self.frames[-1].append((which, self.show_result(result)))      # snapshot at call time
+                self.frames[-1]["hooks"].append((which, self.show_result(result)))      # snapshot at call time
             if how == "raise":
                 raise HookError(f"on_{which} callback failed")
         return hook
 
     def call_run(self, text) -> str:
         """one run() on the current loop -> the reply part of the observation"""
-        frame = []
+        frame = {"hooks": [], "inner": []}      # results callbacks were given / results logged by requests nested in this one
         self.frames.append(frame)
+        log = self.loop.get_results_log(1)
+        before = log[-1] if log else None
         try:
             r = self.loop.run(text)          # (stdout is redirected by line(): sys.stdout is process-wide)
         except HookError:
-            given = frame[-1][1] if frame else "?"
+            given = frame["hooks"][-1][1] if frame["hooks"] else "?"
             return f"{given} !HookError"
         except BaseException as e:  # noqa
             if isinstance(e, (KeyboardInterrupt, SystemExit, GeneratorExit)):
                 raise
+            log = self.loop.get_results_log(1)
+            mine = log[-1] if log else None
+            if (mine is not None and mine is not before and not any(mine is x for x in frame["inner"])
+                    and getattr(mine, "executor_output", None) is not None):
+                # run() raised AFTER it had produced (and logged) the gate's result: the result, then !<Class>
+                return f"{self.show_result(mine)} !{type(e).__name__}"
             return f"raise:{type(e).__name__}"
         finally:
             self.frames.pop()
+            log = self.loop.get_results_log(1)
+            if log:
+                for f in self.frames:          # whatever is the last log entry now was not logged by an enclosing request later
+                    f["inner"].append(log[-1])
         return self.show_result(r)
 
     # -------------------------------------------------------------------------------------------------
